@@ -12,8 +12,14 @@ from __future__ import annotations
 import os
 from typing import Any, Callable, List, Optional
 
+from wsproto import ConnectionType, WSConnection
+from wsproto import events as wse
+from wsproto.connection import Connection as WSFrameConnection
+from wsproto.extensions import PerMessageDeflate
+from wsproto.utilities import RemoteProtocolError as WSRemoteProtocolError
+
 from . import aio
-from .clients import Client
+from .clients import Client, H1Parser, WSParser
 from .core import Chooser, digest
 from .explore import ExecResult
 from .harness import default_observation, describe, generic_violations
@@ -85,9 +91,140 @@ def case_execute(build: Callable[[Any, Callable[[int, str], int]], tuple],
     return execute
 
 
+def negotiated_deflate(offered: bool, headers: Optional[list]) -> Optional[str]:
+    """RFC 6455 9.1 / RFC 7692 5: what a client that offered (or did not offer) permessage-deflate ENABLES after the
+    handshake response `headers` (101 of HTTP/1.1, 200 of an RFC 8441 extended CONNECT): the extension is in use iff
+    the client offered it AND the response names it in sec-websocket-extensions.  Returns the accepted extension
+    string (with its parameters) or None."""
+    if not offered or headers is None:
+        return None
+    for n, v in headers:
+        if n.lower() != b"sec-websocket-extensions":
+            continue
+        for tok in v.split(b","):
+            if tok.split(b";")[0].strip().lower() == b"permessage-deflate":
+                return tok.decode("latin1").strip()
+    return None
+
+
+class NegotiatedWSParser(WSParser):
+    """Server -> client frames through a wsproto client connection on which exactly the negotiated extensions are
+    enabled.  Without a negotiated permessage-deflate an RSV1 frame is the protocol error it is (RFC 6455 5.2:
+    'MUST be 0 unless an extension is negotiated', wsproto: 1002 'Reserved bit set unexpectedly')."""
+
+    def __init__(self, accepted: Optional[str]) -> None:
+        super().__init__(False)
+        self.negotiated = accepted
+        if accepted is not None:
+            ext = PerMessageDeflate()
+            try:
+                ext.finalize(accepted)
+            except Exception as e:  # parameters a client cannot make sense of
+                self.error = f"ExtensionParameters: {accepted!r}: {e}"
+            else:
+                self.conn = WSFrameConnection(ConnectionType.CLIENT, [ext])
+
+
+class _StreamParsers(dict):
+    """ws over HTTP/2: the frame parser of a stream comes into being when the 200 arrives, with the extensions that
+    response accepted (mc.clients.H2Client looks the parser up at every DATA frame: `sid in ws`, `ws[sid]`)."""
+
+    def __init__(self, h2client: Any) -> None:
+        super().__init__()
+        self.h2client = h2client
+        self.offers: dict = {}  # stream id -> the client offered permessage-deflate
+
+    def _make(self, sid: Any) -> Optional[WSParser]:
+        if dict.__contains__(self, sid):
+            return dict.__getitem__(self, sid)
+        if sid not in self.offers:
+            return None
+        st = self.h2client.streams.get(sid)
+        if st is None or st["status"] != 200:
+            return None
+        parser = NegotiatedWSParser(negotiated_deflate(self.offers[sid], st["headers"]))
+        dict.__setitem__(self, sid, parser)
+        return parser
+
+    def settle(self) -> None:
+        for sid in sorted(self.offers):
+            self._make(sid)
+
+    def __contains__(self, sid: Any) -> bool:
+        return self._make(sid) is not None
+
+    def __getitem__(self, sid: Any) -> WSParser:
+        parser = self._make(sid)
+        if parser is None:
+            raise KeyError(sid)
+        return parser
+
+    def get(self, sid: Any, default: Any = None) -> Any:
+        parser = self._make(sid)
+        return default if parser is None else parser
+
+
+class UpgradeAtParser(H1Parser):
+    """mc.clients.H1Parser whose websocket upgrade is request number `upgrade_at` of the connection (the stock parser
+    can only upgrade with request 0): the h11 client that reads response `upgrade_at` has proposed the upgrade."""
+
+    upgrade_at = 0
+
+    def _start(self) -> None:
+        import h11
+
+        c = h11.Connection(h11.CLIENT)
+        method = self.methods[self.idx] if self.idx < len(self.methods) else b"GET"
+        headers = [("host", "x")]
+        if self.upgrade is not None and self.idx == self.upgrade_at:
+            headers += [("connection", "upgrade"), ("upgrade", self.upgrade)]
+        c.send(h11.Request(method=method, target="/", headers=headers))
+        c.send(h11.EndOfMessage())
+        self.conn = c
+        self.cur = None
+
+
 class GuardClient(Client):
-    """mc.clients.Client + the guard a real client obeys: frames are sent only once the handshake response
-    (101 / 200) was received.  ws/h1 frames are ('cmd', k, 'ws_raw', bytes)."""
+    """mc.clients.Client + what a real client does around the handshake:
+      * frames are sent only once the handshake response (101 / 200) was received; ws/h1 frames are
+        ('cmd', k, 'ws_raw', bytes);
+      * the extension is NEGOTIATED: connection option `deflate` (ws/h1) / ('cmd', k, 'ws_open', sid, deflate) (ws/h2)
+        say what the client OFFERED; the frame parser is created when the handshake response arrives and has
+        permessage-deflate enabled only if that response accepted it (negotiated_deflate);
+      * connection option `upgrade_at` = n: the upgrade is the (n+1)-th request of the HTTP/1.1 connection."""
+
+    def __init__(self, opts: dict) -> None:
+        super().__init__(opts)
+        self.offered_deflate = bool(opts.get("deflate", False))
+        if self.h1 is not None and self.ws is not None:
+            if opts.get("upgrade_at"):
+                h1 = UpgradeAtParser(opts.get("methods"), upgrade=self.h1.upgrade)
+                h1.upgrade_at = int(opts["upgrade_at"])
+                self.h1 = h1
+            self.ws = None  # comes into being with the 101
+            self.h1.on_switch_data = self._ws_feed
+        if self.h2 is not None and self.h1 is None:
+            self.h2.ws = _StreamParsers(self.h2)
+
+    def upgrade_response(self) -> Optional[dict]:
+        if self.h1 is None:
+            return None
+        return next((r for r in self.h1.responses if r["status"] == 101), None)
+
+    def _settle(self) -> None:
+        if self.h1 is not None and self.h1.on_switch_data == self._ws_feed and self.ws is None and self.h1.switched:
+            r = self.upgrade_response()
+            self.ws = NegotiatedWSParser(negotiated_deflate(self.offered_deflate, None if r is None else r["headers"]))
+        if self.h2 is not None and isinstance(self.h2.ws, _StreamParsers):
+            self.h2.ws.settle()
+
+    def _ws_feed(self, data: bytes, t: float) -> None:
+        self._settle()
+        self.ws.feed(data, t)
+
+    def on_server_bytes(self, data: bytes, t: float) -> None:
+        super().on_server_bytes(data, t)
+        self._settle()
 
     def upgraded(self) -> bool:
         if self.h1 is not None:
@@ -111,7 +248,39 @@ class GuardClient(Client):
             return b""
         if ev[2] == "ws_raw":
             return ev[3]
+        if ev[2] == "ws_open" and isinstance(self.h2.ws, _StreamParsers):
+            self.h2.ws.offers[ev[3]] = len(ev) > 4 and bool(ev[4])
+            self.h2.ws.settle()
+            return b""
         return super().command(ev)
+
+
+def wsproto_client_verdict(raw101: bytes, key: bytes, subprotocols: List[str], deflate_offered: bool) -> Optional[str]:
+    """The handshake response bytes judged by an independent wsproto CLIENT that sent the corresponding request
+    (same key, subprotocols and extension offer).  None = it accepts the connection; else why it does not."""
+    ws = WSConnection(ConnectionType.CLIENT)
+    exts = [PerMessageDeflate()] if deflate_offered else []
+    ws.send(wse.Request(host="hypercorn", target="/w", subprotocols=list(subprotocols), extensions=exts))
+    ws.handshake._nonce = key  # the request on the wire was written by the harness with this key
+    try:
+        ws.receive_data(raw101)
+        evs = list(ws.events())
+    except WSRemoteProtocolError as e:
+        return f"RemoteProtocolError: {e}"
+    except Exception as e:
+        return f"{type(e).__name__}: {e}"
+    if len(evs) != 1 or not isinstance(evs[0], wse.AcceptConnection):
+        return f"events {[type(e).__name__ for e in evs]}"
+    return None
+
+
+def raw_upgrade_response(raw: bytes) -> Optional[bytes]:
+    """The bytes of the 101 response head in everything the server wrote on an HTTP/1.1 connection."""
+    i = bytes(raw).find(b"HTTP/1.1 101")
+    if i < 0:
+        return None
+    j = bytes(raw).find(b"\r\n\r\n", i)
+    return None if j < 0 else bytes(raw[i:j + 4])
 
 
 def make_guard_client(world: Any, k: int, opts: dict) -> Client:
@@ -124,6 +293,8 @@ class WindowClient(GuardClient):
 
         ('cmd', k, 'ws_early', stream_id, bytes)     stream_id is ignored on the HTTP/1.1 carrier
         ('cmd', k, 'accept_wait')                    sends nothing: lets a source wait for the same instant
+        ('cmd', k, 'close_wait')                     sends nothing: enabled once an application instance has issued
+                                                     websocket.close (its send may still be under way)
 
     The command is a scheduling device: it is enabled exactly once an application instance of this connection's
     world has issued websocket.accept, i.e. it places the arrival of the bytes in the window between the
@@ -138,15 +309,20 @@ class WindowClient(GuardClient):
         if self.h2 is not None:
             self.h2.conn.decoder.max_header_list_size = self.BIG_HEADER_LIST
 
-    def accepted_by_app(self) -> bool:
+    def sent_by_app(self, mtype: str) -> bool:
         w = self.world
         if w is None:
             return False
-        return any(s[2].get("type") == "websocket.accept" for i in w.instances for s in i.sends)
+        return any(s[2].get("type") == mtype for i in w.instances for s in i.sends)
+
+    def accepted_by_app(self) -> bool:
+        return self.sent_by_app("websocket.accept")
 
     def cmd_enabled(self, ev: tuple) -> bool:
         if ev[2] == "accept_wait":  # pure guard: the application has decided to accept
             return self.accepted_by_app()
+        if ev[2] == "close_wait":  # pure guard: the application has issued its close
+            return self.sent_by_app("websocket.close")
         if ev[2] == "ws_early":
             if not self.accepted_by_app():
                 return False
@@ -156,7 +332,7 @@ class WindowClient(GuardClient):
         return super().cmd_enabled(ev)
 
     def command(self, ev: tuple) -> bytes:
-        if ev[2] == "accept_wait":
+        if ev[2] in ("accept_wait", "close_wait"):
             return b""
         if ev[2] == "ws_early":
             if self.h2 is not None and self.h1 is None:
